@@ -43,7 +43,8 @@ RULE = ('a case is a fault plan: network, k<=4 fake providers with priorities (t
         'the tier alphabet for k<=3 (thorough: k<=4), every weak priority order, max_errors, provider settings and '
         'every one of the 13 methods, cache off. Non-trivial = a plan containing an operation in which every '
         'top-priority provider fails to answer the queried method (so fail-over or failure handling is exercised), '
-        'or a history answered from the cache alone although the confirmed chain goes on (limited reads followed by larger limits), or a cached address summary (getcacheaddressinfo) judged against the complete UTXO answers, or an operation answered from the cache without asking a provider; distinct by the whole case. [directed scenarios include balances of address lists answered partly from the cache] [and a second network using the same cache database: nothing the first stored is an answer for it] [fee targets on both sides of the cache group boundaries in every order]')
+        'or a history answered from the cache alone although the confirmed chain goes on (limited reads followed by larger limits), or a cached address summary (getcacheaddressinfo) judged against the complete UTXO answers, or an operation answered from the cache without asking a provider; distinct by the whole case. [directed scenarios include balances of address lists answered partly from the cache] [and a second network using the same cache database: nothing the first stored is an answer for it] [fee targets on both sides of the cache group boundaries in every order]'
+        ' [chains whose newest block holds the last transactions of the address (limited reads ending inside it); narrow block page followed by wider ones]')
 ASSUMPTIONS = [
     'faults are immediate exceptions/values; a time-out is the exception requests raises, not elapsed time',
     'a provider "answers" iff it neither raises nor returns False (the library\'s own reading of "empty response"); '
@@ -909,8 +910,15 @@ class _Run(object):
                 if obs[1] in prior_valid and type(obs[1]) is int:
                     self.served('blockcount')
                     return
+                stale = getattr(self, 'm_bc_stale', None)
+                # (the recorded block count finding at work: the expired value the library fell back to when the error
+                # limit was reached is kept as the current block count for the 3 s in which no provider is asked again)
+                kept = stale is not None and obs[1] == stale[0] and 0 <= now - stale[1] <= 3
                 self.disc('cache.blockcount', '%s returned %r without asking a provider; unexpired stored values: %r '
-                          '(all: %r) at t+%d' % (what, obs[1], sorted(prior_valid), sorted(prior_all), now - T0))
+                          '(all: %r) at t+%d%s' % (what, obs[1], sorted(prior_valid), sorted(prior_all), now - T0,
+                                                   ' (the expired value adopted %d s ago when the error limit was '
+                                                   'reached)' % (now - stale[1]) if kept else ''),
+                          kf=F_BC_STALE if kept else None)
                 return
             if self.m_bc_failed is not None and now - self.m_bc_failed <= 3:
                 ctx.klass('blockcount.failure-remembered-3s')
@@ -987,6 +995,7 @@ class _Run(object):
                           'providers reached the error limit without an answer; behaviours %r prio %r max_errors %d' %
                           (what, v, [(x, t - T0) for x, t in self.m_bc], now - T0, snapshot, c['prio'],
                            c['max_errors']), kf=F_BC_STALE)
+                self.m_bc_stale = (v, now)
                 return
         if multi and any(_same(v, x) for x in answered_vals):
             ctx.klass('blockcount.consensus-value')
@@ -1393,7 +1402,7 @@ class _Run(object):
                 for t in tail:
                     if t.block_height and t.txid in U.by_txid:
                         self.m_tx.add(U.by_txid[t.txid])
-                if after < 0 and all(n in self.m_tx for n in U.history(a['addr'], confirmed_only=True)):
+                if all(n in self.m_tx for n in U.history(a['addr'], confirmed_only=True)):
                     # the whole confirmed history is legitimately cached: the balance derived from it is the chain's
                     self.m_bal.setdefault(a['addr'], set()).add(U.balance(a['addr']))
             if n_cached:
